@@ -153,8 +153,10 @@ fn fe_scenario(cfg: &Cfg, rng: &mut Rng, case: &str) {
                 break o;
             }
         };
-        let k = op.reply_kind(true);
-        let c = FeCfg { need_reply: true, reply_ack: true, log_shmfd: true };
+        // every negotiated form: descriptors lent to a call are never the library's to close,
+        // whichever wire form the negotiated features select (e.g. SET_LOG_BASE without LOG_SHMFD)
+        let c = FeCfg { need_reply: rng.chance(1, 2), reply_ack: rng.chance(1, 2), log_shmfd: rng.chance(1, 2) };
+        let k = op.reply_kind(c.log_shmfd);
         let (mut f, peer) = c01::setup_frontend(c, 256);
         let rep = make_reply(&op, k, rng);
         let nfds = match rng.below(6) {
@@ -172,7 +174,7 @@ fn fe_scenario(cfg: &Cfg, rng: &mut Rng, case: &str) {
         }
         let files: Vec<std::fs::File> = (0..nfds).map(|_| sys::memfd("c09", 4096)).collect();
         let fds: Vec<RawFd> = files.iter().map(|x| x.as_raw_fd()).collect();
-        what = format!("{} answered with {} descriptors", op.name(), nfds);
+        what = format!("{} ({}{}{}) answered with {} descriptors", op.name(), if c.need_reply { "N" } else { "-" }, if c.reply_ack { "A" } else { "-" }, if c.log_shmfd { "L" } else { "-" }, nfds);
         if k != ReplyKind::Nothing {
             // descriptors at the first byte, or on a later byte of the reply
             if rng.chance(1, 4) && bytes.len() > 13 {
